@@ -21,6 +21,9 @@ trait Codec<'a> {
     fn feed_copy(&mut self, d: &[u8]) -> Result<(), String>;
     fn feed_anchored(&mut self, d: &[u8]) -> Result<(), String>;
     fn feed_read(&mut self, d: &[u8]) -> Result<(), String>;
+    /// anchored input that lives in a chunk of ANOTHER arena, which is dropped right away: only the
+    /// AnchoredSlice's own anchor keeps the bytes alive
+    fn feed_foreign(&mut self, d: &[u8]) -> Result<(), String>;
     fn finish(self) -> Result<OwningIovec<'a>, String>;
 }
 
@@ -52,6 +55,13 @@ macro_rules! impl_encoder {
             }
             fn feed_read(&mut self, d: &[u8]) -> Result<(), String> {
                 $read(self, d)
+            }
+            fn feed_foreign(&mut self, d: &[u8]) -> Result<(), String> {
+                let mut other = ByteArena::new();
+                let a = other.read_n(d, d.len(), NonZeroUsize::MAX).map_err(estr)?;
+                drop(other);
+                self.encode_anchored(a);
+                Ok(())
             }
             fn finish(self) -> Result<OwningIovec<'a>, String> {
                 Ok(<$t>::finish(self))
@@ -92,6 +102,12 @@ macro_rules! impl_decoder {
             }
             fn feed_read(&mut self, d: &[u8]) -> Result<(), String> {
                 $read(self, d)
+            }
+            fn feed_foreign(&mut self, d: &[u8]) -> Result<(), String> {
+                let mut other = ByteArena::new();
+                let a = other.read_n(d, d.len(), NonZeroUsize::MAX).map_err(estr)?;
+                drop(other);
+                self.decode_anchored(a).map_err(estr)
             }
             fn finish(self) -> Result<OwningIovec<'a>, String> {
                 <$t>::finish(self).map_err(estr)
@@ -199,6 +215,7 @@ fn run_phase<'a, C: Codec<'a>>(
                     "copy" => c.feed_copy(piece),
                     "anchored" => c.feed_anchored(piece),
                     "read" => c.feed_read(piece),
+                    "foreign" => c.feed_foreign(piece),
                     _ => panic!("harness: unknown feed method {m}"),
                 });
                 e.insert("m".into(), json!(m));
